@@ -13,7 +13,7 @@ import re
 import subprocess
 import sys
 
-from .ir import S
+from .ir import S, mk_cmp, mk_if, mk_cond, canon_cond
 
 VERIF = os.path.dirname(os.path.dirname(os.path.abspath(__file__)))
 CACHE = os.environ.get('VERIF_CACHE') or os.path.join(VERIF, '.cache')
@@ -258,7 +258,7 @@ class _FnConv:
             if op == ',':
                 return ('other', 'comma')
             op = {'&&': 'and', '||': 'or'}.get(op, op)
-            return ('bin', op, self.expr(a), self.expr(b))
+            return mk_cmp(op, self.expr(a), self.expr(b))
         if k == 'CompoundAssignOperator':
             return ('other', 'compound-assign-in-expr')
         if k == 'UnaryOperator':
@@ -285,7 +285,7 @@ class _FnConv:
             return ('other', 'unary ' + op)
         if k == 'ConditionalOperator':
             c, a, b = n['inner']
-            return ('cond', self.expr(c), self.expr(a), self.expr(b))
+            return mk_cond(self.expr(c), self.expr(a), self.expr(b))
         if k == 'MemberExpr':
             return ('attr', self.expr(n['inner'][0]), n.get('name', '?'))
         if k == 'ArraySubscriptExpr':
@@ -384,7 +384,7 @@ class _FnConv:
             cond = self.expr(inner[0])
             then = self.block(inner[1]) if len(inner) > 1 else []
             els = self.block(inner[2]) if len(inner) > 2 else []
-            return [S('if', line, cond=cond, then=then, els=els)]
+            return [mk_if(line, cond, then, els)]
         if k == 'ForStmt':
             return [self.for_stmt(n)]
         if k == 'WhileStmt':
